@@ -66,6 +66,7 @@ void harness(void) {
 	g_failmask = failmask;
 	VCOVER(s.nseg == VM && b.nseg == VM && s.scheme.len > 0 && b.scheme.len > 0 && s.hostkind == VU_HK_REG && b.hostkind == VU_HK_REG, "two absolute URIs with VM segments and reg-name hosts");
 
+	VCOVER_END;
 	ret = URI_FUNC(RemoveBaseUriMm)(&dest, &us, &ub, domainRoot ? URI_TRUE : URI_FALSE, &vmm);
 
 	VBOUND(g_allocs <= VMM_MAXREQ, "at most 64 allocation requests per call");
@@ -77,7 +78,7 @@ void harness(void) {
 		VPOST("C10", ret == URI_ERROR_REMOVEBASE_REL_SOURCE, "RemoveBaseUri: source without scheme => URI_ERROR_REMOVEBASE_REL_SOURCE");
 		VPOST("C10,C13", g_allocs == 0, "RemoveBaseUri: rejected before anything is allocated");
 	} else if (g_failed > 0) {
-		VCOVER(g_failed > 0 && g_allocs >= 3, "third allocation request refused or later");
+		VCOVER_POST(g_failed > 0 && g_allocs >= 3, "third allocation request refused or later");
 		VPOST("C14", ret == URI_ERROR_MALLOC, "RemoveBaseUri: a refused allocation request => URI_ERROR_MALLOC");
 	} else {
 		VPOST("C10,C14", ret == URI_SUCCESS, "RemoveBaseUri: two absolute URIs, no allocation failure => URI_SUCCESS");
@@ -88,7 +89,7 @@ void harness(void) {
 		sameScheme = sv_txt_eq(&vs.scheme, &vb.scheme);
 		sameAuth = sv_auth_eq(&vs, &vb);
 		hostOnlySame = host_eq(&vs, &vb);
-		VCOVER(sameScheme && sameAuth && vd.path.n == 2 * VM - 1, "shared scheme and authority, reference path of 2*VM-1 segments");
+		VCOVER_POST(sameScheme && sameAuth && vd.path.n == 2 * VM - 1, "shared scheme and authority, reference path of 2*VM-1 segments");
 		/* a reference without scheme can denote S only if S's authority can be expressed: S has one, or the base has none */
 		canOmitScheme = sameScheme && !(vs.hostkind == VU_HK_NONE && vb.hostkind != VU_HK_NONE);
 		if (!canOmitScheme) {
